@@ -49,10 +49,14 @@ def main():
                 w, tw = genlib.overwrite(e, seed + 2)
             except Exception:  # noqa: BLE001   (C18's business)
                 continue
+            tr = genlib.translator(lang)      # one translator object for the three programs of a seed, as the driver uses it
             for tag, prog in (("generated", p), ("erased", e), ("overwritten", w)):
                 a = pser.ser_program(prog)
-                text = genlib.translate(prog)
-                a.update(id="%s/%s/%d/%s" % (lang, swn, seed, tag), counts=[[k, n, scan.count(lang, text, k, n)] for k, n in probes(a)])
+                text = genlib.translate(prog, tr=tr)
+                tps = sorted({("fun_tparam" if ev["kind"] == "Fun" else "class_tparam", ev["name"], t["n"])
+                              for ev in a["ev"] if ev["ev"] == "Enter" and ev["kind"] in ("Fun", "Class") for t in ev["tps"]})
+                a.update(id="%s/%s/%d/%s" % (lang, swn, seed, tag), counts=[[k, n, scan.count(lang, text, k, n)] for k, n in probes(a)],
+                         tcounts=[[k, o, t, scan.count_tparam(lang, text, k, o, t)] for k, o, t in tps])
                 del a["ct"]
                 del a["g"]
                 a["ct"] = {c: {"tp": v["tp"]} for c, v in pser.ser_program(prog, walk=False)["ct"].items()}
